@@ -62,6 +62,8 @@ class Bounds:
             return None
         k = t[0]
         if k == 'const':
+            if getattr(self, 'strict', False) and isinstance(t[1], int) and t[1] > (1 << 48):
+                return None
             return t[1] if isinstance(t[1], int) else None
         if k == 'set':
             bs = [self.ub(x, b, r, depth + 1) for x in t[1]]
@@ -97,6 +99,12 @@ class Bounds:
                 d = self.ub(t[2][1], b, r, depth + 1)
                 return None if a is None or d is None else max(a, d)
             if m in ('saturating_mul', 'saturating_add', 'wrapping_add', 'wrapping_mul'):
+                if getattr(self, 'strict', False):
+                    # "bounded by the data": the clamp at usize::MAX is no bound at all
+                    bs = [self.ub(x, b, r, depth + 1) for x in t[2]]
+                    if any(x is None for x in bs) or len(bs) != 2:
+                        return None
+                    return bs[0] * bs[1] if 'mul' in m else bs[0] + bs[1]
                 return USIZE_MAX
             if m in ('len', 'try_get_len') or c == 'len':
                 return A2_LEN
@@ -678,3 +686,63 @@ def c15_oblig(ctx):
 def self_validate_ok(ctx, b):
     """`validate` is called only on values whose payload is >= 1 (established by C15-CLAMP)"""
     return key_of(b).endswith('::validate') and ctx.cache.get('I-chunk', False)
+
+
+# ======================================================================================= C15-ALLOC
+SIZE_SINK_NAMES = {'from_elem', 'resize', 'resize_with', 'repeat', 'repeat_n', 'new_uninit_slice', 'new_zeroed_slice', 'alloc', 'alloc_zeroed',
+                   'array', 'extend_with', 'with_fixed_capacity', 'with_doubling_growth', 'with_linear_growth', 'with_recursive_growth'}
+
+
+def is_size_sink(t):
+    m = method(t)
+    if t.get('local'):
+        return False
+    if m.startswith('try_'):
+        return False            # fallible reservations report an error instead of panicking / aborting
+    return 'capacity' in m or 'reserve' in m or m in SIZE_SINK_NAMES
+
+
+@rule('C15-ALLOC', 'every size handed to an allocating library API is bounded by the data or the thread budget, never by a free configuration value')
+def c15_alloc(ctx):
+    out = RuleOut('C15-ALLOC')
+    F = ctx.facts
+    B = Bounds(ctx)
+    B.strict = True      # usize::MAX (a saturated product, a huge constant) does not count as a bound
+    n = 0
+    for b in F.fn_bodies():
+        sinks = [(bb, t) for bb, t in b.calls() if not t.get('exp') and is_size_sink(t)]
+        if not sinks:
+            continue
+        r = ctx.run0(b.name)
+        for bb, t in sinks:
+            c = r.calls.get(bb)
+            if c is None:
+                continue
+            sizes = [(i, a) for i, a in enumerate(c['args']) if i < len(t['args']) and is_usize_operand(b, t['args'][i])]
+            if not sizes:
+                continue
+            n += 1
+            k = 'C15-ALLOC/%s/%s' % (key_of(b), method(t))
+            for i, a in sizes:
+                u = B.ub(a, b, r)
+                ok = u is not None
+                out.inst(k, ok, 'size %s <= %s' % (t_str(a)[:80], 'unbounded' if u is None else hex(u)),
+                         sample={'fn': key_of(b), 'api': res(t), 'size': t_str(a)[:160], 'upper_bound': None if u is None else hex(u)})
+                if not ok:
+                    out.fail(k, '%s: the size passed to %s is %s, which no data length or thread budget bounds: a configuration value '
+                                '(e.g. a huge ChunkSize) makes the allocation panic with capacity overflow or abort the process'
+                             % (key_of(b), res(t), t_str(a)[:120]), b.where(t.get('line')))
+    out.floor('size_sinks', n, 3 if not ctx.fixture else 0)
+    return out
+
+
+def is_usize_operand(b, o):
+    k = o.get('k')
+    if k in ('copy', 'move'):
+        pl = o['pl']
+        if pl.get('p'):
+            return False
+        return b.locals[pl['l']]['ty'] == 'usize'
+    if k in ('int', 'constref'):
+        return o.get('ty') == 'usize'
+    return False
